@@ -56,14 +56,15 @@ void h_rootrace(Ctx& c) {
         run_round(N, c.r.next(), [&](int tid) {
             Session s;
             s.reenter();
-            std::string k = "root" + std::to_string(tid);
+            // long keys: the speculative root carries a chain of next-layer borders which the loser must free too
+            std::string k = (rep_i % 2 == 0 ? std::string("root") : std::string("rootrace-key-with-several-layers-")) + std::to_string(tid);
             std::string v = make_value(c.next_id.fetch_add(1), k, 100);
             out[tid] = yk::put<char>(s.tok, ti, k, v.data(), false, v.size());
             s.leave();
         });
         alloc::Counters c1 = alloc::counters();
-        // 8 keys fit one border: every extra border allocated was a lost race
-        if (c1.node_allocs - c0.node_allocs > 1) { c.lost_root_races += c1.node_allocs - c0.node_allocs - 1; }
+        // short keys: 8 keys fit one border, every extra border allocated was a lost race
+        if (rep_i % 2 == 0 && c1.node_allocs - c0.node_allocs > 1) { c.lost_root_races += c1.node_allocs - c0.node_allocs - 1; }
         for (auto s : out) {
             if (s != status::OK) { c.rep.violation("leak:root-race-put-status", "put into an empty tree failed", JObj().str("got", st(s)).done()); }
         }
@@ -78,7 +79,11 @@ void h_rootrace(Ctx& c) {
 
 void h_createrace(Ctx& c) {
     for (int i = 0; i < 20; ++i) {
-        std::string nm = "race" + std::to_string(i % 3);
+        std::string nm = (i % 2 == 0 ? std::string("race") : std::string("race-storage-name-longer-than-one-slice-")) + std::to_string(i % 3);
+        if (i % 5 == 4) {
+            // empty namespace with a null root: the creators race on the root pointer itself
+            yk::destroy();
+        }
         run_round(6, c.r.next(), [&](int) { yk::create_storage(nm); });
         ++c.create_races;
         if (i % 2 == 0) { yk::delete_storage(nm); }
